@@ -99,6 +99,14 @@ def simplify_programs(thorough):
             a = (_line(('1', '-1'), x2, c1, '0'), ('1', '-1'), c1, '0')
             b = (_line(('1', '-1'), x2, c2, '0'), ('1', '-1'), c2, '0')
             P.append(_prog('lin3:pair+1', [a, b, third], x2))
+    # decimals whose integer part ends in 0 and whose first decimal is 0 (text rewriting of ' 0.0...' literals
+    # inside solve must not reach into them), as right-hand side and as coefficient
+    for l in _lines(_rows(SMALL, 2), x2, ('10.05', '20.01') if not thorough else ('10.05', '20.01', '100.03', '0.05')):
+        P.append(_prog('lin1:decimal_rhs', [l], x2))
+    for c in CMPS:
+        for text, row, d in (('1*x0 + 1*x1 %s 10.05*x1 + 0.5' % c, None, None), ('10.05*x0 + -1*x1 %s 20.01' % c, ('10.05', '-1'), '20.01')):
+            P.append({'kind': 'simplify', 'family': 'lin1:decimal_rhs', 'text': text, 'cmps': c, 'vars': list(x2), 'variables': None,
+                      'bound': 2, 'rows': None, 'shape': 'single', 'class_by_outcome': False})
     # naming schemes
     abc = ('a', 'b', 'c')
     for l in _lines(_rows(COEF if thorough else SMALL, 2), abc[:2], DS):
@@ -415,7 +423,19 @@ def check_program(T, prog, validate_memo=True):
     with Instr() as I:
         def run(ch):
             return run_simplify(prog, ch, I)
-        for ch, (outcome, draws, degenerate) in tree.explore(run, bound=prog['bound']):
+        explorer = tree.explore(run, bound=prog['bound'])
+        while True:
+            try:
+                ch, (outcome, draws, degenerate) = next(explorer)
+            except StopIteration:
+                break
+            except tree.Diverged as e:
+                # every random draw of simplify is owned (rand=): the same call meeting other choice points on a
+                # replay means the library kept something from an earlier call (a memo, a cache, a module-level list)
+                T.violate({'clause': 'simplify', 'family': prog['family'], 'problem': 'repeated_call_takes_another_path'},
+                          dict(prog, choices=[]),
+                          'simplify(%r, all=True) made other random draws when called again with the same arguments: %s' % (prog['text'], e))
+                break
             T.count('traces')
             T.count('transitions', len(ch.trace) + 1)
             T.hist('draws_per_execution', len(draws))
@@ -698,6 +718,9 @@ def solve_cases(thorough):
     add(SMALL, 3, 2, d2q[1:2], x3, targets=(['x2', 'x1'],) if not thorough else (['x2', 'x1'], ['x1', 'x2', 'x0'], ['x2']))
     add(SMALL, 2, 2, d2q[1:2], ('a', 'b'), variables=['a', 'b', 'c'])
     add(SMALL, 2, 2, d2q[1:2], ('x1', 'x10'))
+    # decimals whose integer part ends in 0 and whose first decimal is 0
+    add(SMALL, 2, 1, [('10.05',), ('20.01',)], x2)
+    add(SMALL, 2, 2, [('10.05', '20.01'), ('100.03', '0')], x2)
     return out
 
 
